@@ -22,12 +22,14 @@ PROPS["C12"] = {
     "level_note": "partial: F9a (a reopen retry loop spanning a rebalance close kills the client) is a known finding outside the generated histories; trusted: Lean kernel, Model/Life.lean, L1 harness",
 }
 PROPS["C13"] = {
-    "streams": ["life-shut", "life-trail", "c07gate", "sess-save"],
+    "streams": ["life-shut", "life-trail", "c07gate", "sess-save", "c07rm"],
     # of the rollback-mitigation gate stream only the scripts that close the stream matter here: waiting events are released WITHOUT delivery
     # of the save-protocol stream only the steps where a second save runs into an in-flight one (the shape of dcp.close()'s final save
     # arriving while a periodic save is slow): it must wait and then save
-    "op_filter": {"c07gate": r" c( |$)", "sess-save": r"^sv \d+ lockwait"},
-    "clauses": ["C13", "C07.not-released", "C07.unsafe-delivery", "C05.concurrent-save-dropped"], "audit": ["C13.lean", "C13Run.lean"], "modules": ["GoDcp.Props.C13", "GoDcp.Props.C13Run"], "retry_divergence": 2, "timeout": 900,
+    # of the rollback-mitigation polling stream only the Stop()-during-a-slow-round scenarios: stream.Close calls rollbackMitigation.Stop() first,
+    # so a Stop() that hangs (or polling that goes on after it) is a shutdown that is not clean (model + theorems: Model/RmStop, Props/C13Rm)
+    "op_filter": {"c07gate": r" c( |$)", "sess-save": r"^sv \d+ lockwait", "c07rm": r"^rm-stop-slow "},
+    "clauses": ["C13", "C07.not-released", "C07.unsafe-delivery", "C05.concurrent-save-dropped"], "audit": ["C13.lean", "C13Run.lean", "C13Rm.lean"], "modules": ["GoDcp.Props.C13", "GoDcp.Props.C13Run", "GoDcp.Props.C13Rm"], "retry_divergence": 2, "timeout": 900,
     "rule": _LIFE_RULE, "assumptions": _LIFE_ASSUME + ["Close() = the stream-level part of dcp.close (Save when checkpoint.type=auto, then stream.Close); bounded time is measured by the harness, not proved"],
     "design_ref": "DESIGN.md §7 C13, §6 F4 F6",
     "level_text": "Kernel-checked on the validated life-cycle model (Props/C13, C13Run): shutdown_from_A_clean (from every reachable streaming state: no fail-stop, every stream closed, stopped), after_shutdown_quiet / after_shutdown_no_delivery (no delivery, request or write after it), final_save_covers_settled (auto: every dirty vBucket ends up stored at its position), close_failstops_iff = the exact characterisation of finding F4 (Close inside the rebalance window), shutdown_in_window_failstop, close_terminates_partial outside it, shutdown_idempotence, reb_timer_after_shutdown_failstops. Tied to the real code by shutdowns injected after open, mid-history and at every step of a rebalance (L1), through the real dcp.Dcp against the simulated node incl. the final save (L2), the trailing-save scenario (F6, repaired), gate scripts that close while events wait at the rollback-mitigation gate, and a save running into an in-flight save.",
